@@ -30,6 +30,10 @@ Definition tp_src_lookback : bool := match f_tp_loop_lookback with Some b => b |
    the requested end (pinned tree, finding stale-reference), true = still merges the referenced periods, cut off at valid_end
    (repo_patches/C08-merge-references-every-round.diff) *)
 Definition tp_src_merge_always : bool := match f_tp_merge_always with Some b => b | None => false end.
+(* [rw] the form of TimePeriod::Start (Tp/TpRoll.v tp_roll_start_on): false = UpdateRegion(now, now + 24 h, true) on the state as
+   restored (segments dropped, valid_begin / valid_end kept: finding restart-keeps-valid-end), true = valid_begin / valid_end are
+   emptied first (repo_patches/C08-start-resets-window.diff) *)
+Definition tp_src_start_resets : bool := match f_tp_start_resets with Some b => b | None => false end.
 
 (* ---------------- civil calendar (proleptic Gregorian), days since 1970-01-01 ---------------- *)
 
